@@ -77,7 +77,10 @@ use self::core::{OneShotShared, STATE_SENT, STATE_TAKEN}; // Import shared state
 use std::fmt; // For Sender/Receiver Debug impls
 use std::future::Future;
 use std::pin::Pin;
+#[cfg(not(all(excsn_fibre_verif, excsn_fibre_verif_shuttle)))]
 use std::sync::atomic::{AtomicBool, Ordering};
+#[cfg(all(excsn_fibre_verif, excsn_fibre_verif_shuttle))]
+use crate::internal::sync::{AtomicBool, Ordering};
 use std::sync::Arc;
 use std::task::{Context, Poll};
 
